@@ -81,6 +81,7 @@ func (u *Unit) VerifyFunc() {
 		}
 	}
 	u.entryFresh = u.fresh
+	u.borrowSetup(fr)
 	// pre-create skolems so that range-exit facts can be instantiated at them
 	u.precreateSkolems()
 	// requires
@@ -293,6 +294,7 @@ func (u *Unit) topReturn(st *State, fr *Frame, res []Val) {
 		}
 		u.Prove(st.Clone(), p.name, "post", p.tags, u.Fn.Pos(), p.clause, p.goal, vals)
 	}
+	u.borrowAtReturn(st, env)
 	u.lockBalance(st, fr)
 }
 
